@@ -99,6 +99,8 @@ def execute(ctx, pid, case, keep=False, debug=False, dump=False):
 def generate(ctx, pid, tier, seed, i, skip):
     rng = random.Random('%s:%s:%d' % (seed, pid, i))
     if pid == 'C18':
+        if i % 8 == 5:      # every eighth case: the split-message scenario (chosen by the case number, so that the other cases stay as they were)
+            return pgen.gen_c18_split(rng, tier, skip, ctx.msgb)
         return pgen.gen_c18(rng, tier, skip)
     return pgen.gen_c19(rng, tier, skip, ctx.msgb)
 
